@@ -239,9 +239,11 @@ for (st, pre), ops in CHAIN_CASES.items():
                 'chain state = stated start position %d after stated concrete prefix %d; push of any move of group %s, popped again if accepted' % (st, pre, ok),
                 'c13::chain_push_pop::<_, %d, %d, %d>' % (st, pre, code), 's13', 66,
                 bounds='pre-states from the stated finite sets START x PREFIX; BaseMoveChain<ArrRepeat>', props=['C13', 'C04'])
-for st, gk in [(0, 'pawn'), (0, 'king'), (0, 'castling'), (1, 'pspecial'), (5, 'knight')]:
-    reg('c13_chain_eq_s%d_%s' % (st, gk), 'C13', T, 3600, 28, 'two chains (same start / other clocks / no castling rights / another start), one symbolic push of group %s and outcome each' % gk,
-        'c13::chain_eq::<_, %d, %d>' % (st, KGCODE[gk]), 's13', 66)
+for st, gk, variants in [(0, 'pawn', (0, 1, 3)), (0, 'king', (0, 2)), (0, 'castling', (0, 2)), (1, 'pspecial', (0, 1)), (5, 'knight', (0, 3))]:
+    for v in variants:
+        vd = ['the same start', 'the same squares with another half-move clock', 'the same squares without the mover\'s castling rights', 'another stated position'][v]
+        reg('c13_chain_eq_s%d_%s_v%d' % (st, gk, v), 'C13', T, 3600, 16, 'chain 1: stated start %d + one symbolic push of group %s; chain 2: %s + optionally a stated concrete move; outcomes symbolic'
+            % (st, gk, vd), 'c13::chain_eq::<_, %d, %d, %d>' % (st, KGCODE[gk], v), 's13', 66)
 for st, pre, gk, conc, nops in [(5, 3, None, 2, 2), (0, 3, None, 1, 2), (5, 4, None, 3, 2), (1, 3, None, 0, 3), (0, 1, 'king', 1, 2), (5, 3, None, 0, 4)]:
     reg('c17_walker_s%d_p%d_%s_%d_%d' % (st, pre, gk or 'concrete', conc, nops), 'C17', T, 3600, 16 if nops < 4 else 28,
         'stated chain (start %d, prefix %d)%s; %d concrete next() calls, then %d symbolic walker operations' % (st, pre, ' extended by one symbolic accepted move of group ' + gk if gk else '', conc, nops),
@@ -293,7 +295,7 @@ QUICK = {
     'C12': ['c12_coord_parse', 'c12_coord_roundtrip', 'c12_color_parse', 'c12_cell_parse', 'c12_castling_parse', 'c12_castling_roundtrip',
             'c12_san_parse_total_5', 'c10_uci_parse_exact'],
     'C13': ['c13_chain_step_s0_p0_castling', 'c13_chain_push_pop_s0_p0_castling', 'c13_chain_push_pop_s1_p0_ep', 'c13_chain_step_s0_p2_other',
-            'c13_chain_step_s5_p4_other', 'c13_chain_eq_s0_pawn'],
+            'c13_chain_step_s5_p4_other', 'c13_chain_eq_s0_pawn_v1', 'c13_chain_eq_s0_king_v0'],
     'C14': ['c14_outcome_filter_table', 'c14_chain_outcome_precedence', 'c07_outcome_classification_w', 'c07_outcome_lone_king_b', 'c13_chain_step_s5_p4_other', 'c13_chain_step_s5_p4_knight_rep',
             'c13_chain_step_s3_p0_other'],
     'C15': ['c15_leapers_exact', 'c15_between_exact', 'c15_bishop_exact'],
